@@ -411,6 +411,16 @@ func (s *MemoryStore) revokeRefreshTokenLocked(requestID string) error {
 		rel.active = false
 		s.RefreshTokens[signature] = rel
 	}
+
+	// RefreshTokenRequestIDs remembers only the newest signature of a request ID. Two token requests that redeemed the same
+	// code at the same time leave two refresh tokens under one request ID; revocation by request ID has to reach both (as
+	// RevokeAccessToken does for access tokens), otherwise the one the index forgot stays usable after its revocation.
+	for signature, rel := range s.RefreshTokens {
+		if rel.active && rel.Requester != nil && rel.GetID() == requestID {
+			rel.active = false
+			s.RefreshTokens[signature] = rel
+		}
+	}
 	return nil
 }
 
